@@ -79,8 +79,8 @@ def tetAddCellV (k : Kernel) (vs : List Nat) (chk : Bool) : Kernel × Option Nat
 def swapHEProp (p : Props) (a b : Nat) : Props := { p with he := p.he.map (·.swap a b) }
 def swapHFProp (p : Props) (a b : Nat) : Props := { p with hf := p.hf.map (·.swap a b) }
 def swapCProp (p : Props) (a b : Nat) : Props := { p with c := p.c.map (·.swap a b) }
-def Col.copy (c : Col) (src dst : Nat) : Col := { c with vals := c.vals.set dst (c.vals.getD src c.dflt) }
-def copyCProp (p : Props) (src dst : Nat) : Props := { p with c := p.c.map (·.copy src dst) }
+def colCopy (src dst : Nat) (c : Col) : Col := { c with vals := c.vals.set dst (c.vals.getD src c.dflt) }
+def copyCProp (p : Props) (src dst : Nat) : Props := { p with c := p.c.map (colCopy src dst) }
 
 end Kernel
 end OVM
